@@ -160,13 +160,6 @@ def serialize_buffer_independent_orig_full : Prop :=
   ∀ (l : DHCPv4) (b1 b2 : SBuf) (fix csum : Bool), Inv b1 → Inv b2 → contents b1 = contents b2 →
     serView (l.serializeTo .orig b1 fix csum) = serView (l.serializeTo .orig b2 fix csum)
 
-/-- a buffer that held 300+300 bytes 0xA5 and was cleared -/
-def dirtyBuf : SBuf :=
-  clear (step (step (new 0 0) (.append (List.replicate 300 0xA5))) (.prepend (List.replicate 300 0xA5)))
-
-theorem dirtyBuf_inv : Inv dirtyBuf :=
-  inv_clear' _ (inv_step' _ _ (inv_step' _ _ (inv_new' 0 0)))
-
 set_option maxRecDepth 100000 in
 /-- The pinned SerializeTo leaks the buffer's past: a layer built field by field (nil addresses, nil
     sname/file) requests 241 bytes and writes 13 of them; on a cleared re-used buffer the other 228
